@@ -137,6 +137,11 @@ def check_path(spec):
     q = make_path(spec); q.translate(Point(*v))
     if abs(q.signed_area - sa) > 1e-6 * (abs(sa) + L * (abs(v[0]) + abs(v[1]))) + 0.05 * L:
         return "signed area changed by translation"
+    # far from the origin (the shoelace products are then ~1e20 while the area is ~1e4: F32); coordinates there are rounded to ~2e-6
+    far = spec.get("far", (1e10, -3e9))
+    q = make_path(spec); q.translate(Point(*far))
+    if abs(F(q.signed_area) - green) > 10 * L + 1e-3 * L * 4 + 1e-9:
+        return "signed area %r after translating by %r differs from the exact area %r by more than 10*length" % (q.signed_area, far, float(green))
     k = spec["k"]
     q = make_path(spec); q.scale(k)
     if abs(F(q.signed_area) - F(k) * F(k) * green) > 10 * L * abs(k) + 1e-9:
